@@ -42,6 +42,8 @@ package tensor
 //@ func tensor.Dense.makeArray
 //@   trusted
 //@   ensures [fresh] fresh(t.Raw)
+//@   ensures [count] len(t.Raw) / rsize(t.t) == size
+//@   ensures [type_kept] t.t == old(t.t)
 //@   assigns t.array, t.flag
 
 //@ func tensor.copyDense
@@ -62,7 +64,9 @@ package tensor
 //@   ensures [old] !apIsZero(t.old) ==> apEq(asptr("tensor.Dense", result).old, t.old)
 //@   ensures [old_sep] !apIsZero(t.old) ==> apSep(asptr("tensor.Dense", result).old, t.old) && apSep(asptr("tensor.Dense", result).old, t.AP)
 //@   ensures [src] unchanged(t.shape) && unchanged(t.strides) && unchanged(t.old.shape) && unchanged(t.old.strides) && t.shape == old(t.shape) && t.strides == old(t.strides) && t.old.shape == old(t.old.shape) && t.old.strides == old(t.old.strides)
-//@   ensures [fresh] fresh(asptr("tensor.Dense", result))
+//@   ensures [fresh] fresh(asptr("tensor.Dense", result)) && typeis(result, "*tensor.Dense") && fresh(asptr("tensor.Dense", result).Raw)
+//@   ensures [same_type] asptr("tensor.Dense", result).t == t.t && asptr("tensor.Dense", result).e == t.e
+//@   ensures [same_count] len(asptr("tensor.Dense", result).Raw) / rsize(t.t) == len(t.Raw) / rsize(t.t)
 //@   assigns nothing
 
 // ---- SafeT: a transposed copy with its own storage and metadata ----
